@@ -129,6 +129,7 @@ private:
   int check_digraph(int c);
   int check_trigraph(int c);
   int skip_whitespace(int c);
+  int skip_whitespace_in_line(int c);
   int skip_comment(int c);
   int skip_c_comment(int c);
   int skip_cpp_comment(int c);
